@@ -2,6 +2,7 @@ package checks
 
 import (
 	"context"
+	"errors"
 	"fmt"
 	"io"
 	"net/http"
@@ -264,10 +265,16 @@ func c19Batch(rep *vk.Report, b int, fam string, srv *c18Server) {
 			}
 			var resp *http.Response
 			var err error
+			// every fourth call goes through an inner RoundTripper whose response bodies report an error from Close (after
+			// really closing): a stream reset, a failing wrapper. The attempt's resources must be released all the same
+			var inner http.RoundTripper = tr
+			if r.IntN(4) == 0 {
+				inner = closeErrRT{tr}
+			}
 			if cs.Entry == "roundtripper" {
-				resp, err = (&http.Client{Transport: failsafehttp.NewRoundTripperWithExecutor(tr, ex)}).Do(req)
+				resp, err = (&http.Client{Transport: failsafehttp.NewRoundTripperWithExecutor(inner, ex)}).Do(req)
 			} else {
-				resp, err = failsafehttp.NewRequestWithExecutor(req, &http.Client{Transport: tr}, ex).Do()
+				resp, err = failsafehttp.NewRequestWithExecutor(req, &http.Client{Transport: inner}, ex).Do()
 			}
 			// the caller closes everything it was handed
 			if resp != nil {
@@ -424,4 +431,22 @@ func (c *customCtx) Err() error {
 	default:
 		return nil
 	}
+}
+
+// closeErrRT wraps every response body so that Close closes the underlying body and then reports an error.
+type closeErrRT struct{ next http.RoundTripper }
+
+func (c closeErrRT) RoundTrip(r *http.Request) (*http.Response, error) {
+	resp, err := c.next.RoundTrip(r)
+	if resp != nil && resp.Body != nil {
+		resp.Body = closeErrBody{resp.Body}
+	}
+	return resp, err
+}
+
+type closeErrBody struct{ io.ReadCloser }
+
+func (b closeErrBody) Close() error {
+	b.ReadCloser.Close()
+	return errors.New("stream reset while closing")
 }
